@@ -319,6 +319,14 @@ def shard_constants():
     return run
 
 
+def sstr(x):
+    """str() of a possibly ill-formed node must not take the harness down."""
+    try:
+        return str(x)
+    except BaseException as e:         # noqa
+        return "<unprintable node: %s>" % type(e).__name__
+
+
 def _zero(t):
     if t == BOOL:
         return False
@@ -377,7 +385,7 @@ def shard_constructors(shard, nshards):
                         run.fail({"subcheck": "constructor:accepted-illtyped-on-retry", "ctor": name},
                                  {"ctor": name, "types": list(ts), "params": list(ps), "form": form},
                                  "%s raised %s the first time and returned %s the second time" % (
-                                     label, type(raised).__name__, r2))
+                                     label, type(raised).__name__, sstr(r2)))
                 continue
             if expected is None:
                 if not must_reject:
@@ -386,7 +394,7 @@ def shard_constructors(shard, nshards):
                 run.fail({"subcheck": "constructor:accepted-illtyped", "ctor": name,
                           "class": (ps[0] if ps and isinstance(ps[0], str) else "fun-arg" if any(is_fun(t) for t in ts) else "sorts")},
                          {"ctor": name, "types": list(ts), "params": list(ps), "form": form},
-                         "%s returned %s although the application is ill-typed" % (label, r))
+                         "%s returned %s although the application is ill-typed" % (label, sstr(r)))
                 continue
             run.cls("accepted-welltyped")
             # returned: every node well-typed, reported type == reference type
